@@ -218,7 +218,27 @@ fn main() {
                 Vec::new()
             };
             drop(eval);
-            json!({"steps": steps, "gc": [sp, forced], "profile_ok": profile, "exports": exports})
+            let mut r = json!({"steps": steps, "gc": [sp, forced], "profile_ok": profile, "exports": exports});
+            if opts["freeze_main"].as_bool().unwrap_or(false) {
+                // freeze the main module after evaluation and read the exports (and the retained heap profile) back
+                r["freeze"] = match module.freeze() {
+                    Ok(fm) => {
+                        let mut names: Vec<String> = fm.names().map(|s| s.as_str().to_owned()).collect();
+                        names.sort();
+                        let vals: Vec<J> = names
+                            .iter()
+                            .filter_map(|n| fm.get_owned(n).ok().map(|v| json!([n, v.by_ref(|x| enc(*x))])))
+                            .collect();
+                        let prof = match fm.heap_profile() {
+                            Ok(p) => J::Bool(p.gen_csv().is_ok() || p.gen_flame_data().is_ok()),
+                            Err(_) => J::Null,
+                        };
+                        json!({"ok": vals, "heap_profile": prof})
+                    }
+                    Err(e) => json!({"err": format!("{:?}", e)}),
+                };
+            }
+            r
         });
         let mut r = r;
         r["lib"] = J::Array(lib_out);
